@@ -199,6 +199,8 @@ enum Op {
     SeekSaved(usize),
     Pos,
     SetPolicy(PolSpec),
+    SerSet(usize),
+    SerOwned,
     Bad,
 }
 
@@ -221,6 +223,8 @@ fn parse_op(s: &str) -> Op {
         "J" => Op::SeekSaved(r.parse().unwrap()),
         "P" if r.is_empty() => Op::Pos,
         "Y" => Op::SetPolicy(parse_pol(r)),
+        "Z" => Op::SerSet(r.parse().unwrap()),
+        "Q" if r.is_empty() => Op::SerOwned,
         _ => Op::Bad,
     }
 }
@@ -547,6 +551,32 @@ fn run_fa(out: &mut dyn Write, cap: usize, src: Src, pol: PolSpec, ops: &[Op], l
                     }
                     Outcome::Line("pos".to_string())
                 }
+                Op::SerSet(slot) => {
+                    name = format!("Z{}", slot);
+                    let set = &sets[*slot];
+                    guarded(|| {
+                        let text = serde_json::to_string(set).unwrap();
+                        let back: fasta::RecordSet = serde_json::from_str(&text).unwrap();
+                        let recs: Vec<String> = (&back).into_iter().map(|r| dump_fa(&r)).collect();
+                        set_str(back.len(), recs)
+                    })
+                }
+                Op::SerOwned => {
+                    name = "Q".to_string();
+                    guarded(|| match rd.next() {
+                        None => "none".to_string(),
+                        Some(Err(e)) => fa_err(&e),
+                        Some(Ok(rec)) => {
+                            let o = rec.to_owned_record();
+                            let text = serde_json::to_string(&o).unwrap();
+                            let back: fasta::OwnedRecord = serde_json::from_str(&text).unwrap();
+                            if back != o {
+                                return "ser-owned-differs".to_string();
+                            }
+                            format!("own {}.{}", hex(&back.head), hex(&back.seq))
+                        }
+                    })
+                }
                 Op::SetPolicy(_) | Op::Bad => {
                     name = "Y".to_string();
                     Outcome::Line("ok".to_string())
@@ -666,6 +696,32 @@ fn run_fq(out: &mut dyn Write, cap: usize, src: Src, pol: PolSpec, ops: &[Op], l
                     name = "P".to_string();
                     saved.push(rd.position().clone());
                     Outcome::Line("pos".to_string())
+                }
+                Op::SerSet(slot) => {
+                    name = format!("Z{}", slot);
+                    let set = &sets[*slot];
+                    guarded(|| {
+                        let text = serde_json::to_string(set).unwrap();
+                        let back: fastq::RecordSet = serde_json::from_str(&text).unwrap();
+                        let recs: Vec<String> = (&back).into_iter().map(|r| dump_fq(&r)).collect();
+                        set_str(back.len(), recs)
+                    })
+                }
+                Op::SerOwned => {
+                    name = "Q".to_string();
+                    guarded(|| match rd.next() {
+                        None => "none".to_string(),
+                        Some(Err(e)) => fq_err(&e),
+                        Some(Ok(rec)) => {
+                            let o = rec.to_owned_record();
+                            let text = serde_json::to_string(&o).unwrap();
+                            let back: fastq::OwnedRecord = serde_json::from_str(&text).unwrap();
+                            if back != o {
+                                return "ser-owned-differs".to_string();
+                            }
+                            format!("own {}.{}.{}", hex(&back.head), hex(&back.seq), hex(&back.qual))
+                        }
+                    })
                 }
                 Op::SetPolicy(_) | Op::Bad => {
                     name = "Y".to_string();
@@ -812,6 +868,26 @@ fn main() {
         let t: Vec<&str> = line.split(' ').collect();
         if t[0] == "wr" {
             run_writer(&mut out, &t);
+        } else if t[0] == "pol" {
+            use seq_io::policy::BufPolicy;
+            let cs: Vec<usize> = list(t[2]).iter().map(|x| x.parse().unwrap()).collect();
+            let p: Vec<&str> = t[1].split('.').collect();
+            let res: Vec<String> = cs
+                .iter()
+                .map(|c| {
+                    let r = match p[0] {
+                        "std" => seq_io::policy::StdPolicy.grow_to(*c),
+                        "du" => seq_io::policy::DoubleUntil(p[1].parse().unwrap()).grow_to(*c),
+                        "dul" => seq_io::policy::DoubleUntilLimited::new(p[1].parse().unwrap(), p[2].parse().unwrap()).grow_to(*c),
+                        _ => None,
+                    };
+                    match r {
+                        Some(n) => n.to_string(),
+                        None => "n".to_string(),
+                    }
+                })
+                .collect();
+            writeln!(out, "pol {}", res.join(",")).unwrap();
         } else {
             let cap: usize = t[1].parse().unwrap();
             let inp = unhex(t[2]);
